@@ -19,6 +19,10 @@ for d in sorted((root / "seeded").iterdir()):
     hit = "; ".join(f"{k}: `{', '.join(v['signatures'][:2])}`" for k, v in cb.items() if v.get("rc") == 1)
     silent = [k for k, v in cb.items() if v.get("rc") == 0]
     cell = hit or "**missed**"
+    if str(j.get("status", "")).startswith("obsolete"):
+        n -= 1
+        caught -= bool(j.get("caught"))
+        cell = "obsolete: relied on a defect of the unmodified tree that has since been repaired (meta.json: status)"
     if silent and hit:
         cell += f" (silent: {', '.join(silent)})"
     rows.append(f"| `{d.name}` | {j['property']} | {cell} |")
